@@ -79,7 +79,8 @@ COND = [
 
 # std namespaces whose members never panic (apart from what COND lists)
 SAFE_PREFIX = (
-    "core::iter::", "<core::iter::", "core::option::Option::<T>::", "<core::option::Option<T>",
+    "core::iter::", "<core::iter::", "core::option::Option::<T>::", "<core::option::Option<T>", "core::option::Option::<core::result::Result<T, E>>::transpose",
+    "core::result::Result::<core::option::Option<T>, E>::transpose",
     "core::result::Result::<T, E>::", "<core::result::Result<T, ", "core::convert::", "<T as core::convert::",
     "core::clone::", "core::cmp::", "core::fmt::", "core::mem::", "core::marker::", "core::default::",
     "core::str::<impl str>::", "<core::str::", "core::str::iter::", "core::char::", "core::num::",
@@ -364,6 +365,19 @@ def dominating_conditions(body, sl, bb):
     """[(cond_term, taken_bool)] for boolean switches whose one side dominates bb."""
     out = []
     for bi, _i, t in body.terms():
+        if t["k"] == "SwitchInt" and t["dty"] in ("usize", "u8", "u16", "u32", "u64", "i32", "i64", "isize") and body.dominates(bi, bb) and bi != bb:
+            # `match v { 0 => .., n => .. }`: on the otherwise edge v differs from every listed value, on a listed edge it equals it
+            d = sl.operand(t["discr"])
+            oth = [(bi, dst, lab) for dst, lab in body.term_edges(bi) if lab == ("otherwise",)]
+            if oth and G.guarded_by(body, bb, oth):
+                for v_, _tb in t["targets"]:
+                    out.append((("bin", "Ne", d, ("const", t["dty"], v_), t["dty"]), True))
+            else:
+                for v_, tb in t["targets"]:
+                    es = [(bi, dst, lab) for dst, lab in body.term_edges(bi) if lab == ("switch", v_)]
+                    if es and G.guarded_by(body, bb, es):
+                        out.append((("bin", "Eq", d, ("const", t["dty"], v_), t["dty"]), True))
+            continue
         if t["k"] != "SwitchInt" or t["dty"] != "bool" or not body.dominates(bi, bb) or bi == bb:
             continue
         d, neg = G.strip_not(sl.operand(t["discr"]))
